@@ -125,6 +125,7 @@ def objStr (w : World) (d : Nat) : String :=
 inductive HOp
   | op (o : Op)
   | handover (fin : Bool) (args : ArgsKind) (n : Nat) (dataFirst : Bool)
+  | animate (loops : Int) (cache : CacheArg) (bound : Nat)
 
 def pArgs : Wire.P ArgsKind := do
   let a ← word
@@ -137,6 +138,9 @@ def pHOp : Wire.P HOp := fun ts =>
   | "handover" :: rest => (do
       let fin ← bool; let a ← pArgs; let n ← nat; let df ← bool
       pure (HOp.handover fin a n df)) rest
+  | "animate" :: rest => (do
+      let l ← int; let c ← pCache; let b ← nat
+      pure (HOp.animate l c b)) rest
   | _ => (do let o ← pOp; pure (HOp.op o)) ts
 
 def stepH (w : World) (o : HOp) (f : Flt) : World × Option (Option Exc) :=
@@ -144,6 +148,9 @@ def stepH (w : World) (o : HOp) (f : Flt) : World × Option (Option Exc) :=
   | .op o => stepOp w o f
   | .handover fin a n df =>
     match run sem (handoverP fin a n df) f w with
+    | (w', _, r) => (dropRefsFast w', some r)
+  | .animate l c b =>
+    match run sem (animOpP l c b) f w with
     | (w', _, r) => (dropRefsFast w', some r)
 
 /-- run a history, one output field per op: `<outcome>/<events of the op>/<closed flags>` -/
